@@ -16,35 +16,35 @@ Code order mirrored here (native-tls build):
                    conn.stream = parts.codec.framed(ConnType::Tls(tls));          -- fresh, empty buffers
                    ldap.has_tls = true;  Ok((conn, ldap))
 
-The single-operation turn: the `select!` loop takes the queued op, writes it (`stream.send` flushes),
-registers it in `resultmap` and `continue`s (so the `SingleOp` exit after the `select!` is skipped);
-the next `select!` event is the socket: `Framed::poll_next` reads until ONE frame decodes and returns
-it; the turn routes that one frame and then leaves the loop (`if let SingleOp = mode { break }`).
-Nothing more is decoded in cleartext: whatever `Framed` had read behind that frame stays in its read
-buffer, and the buffer is dropped by `into_parts()` (only `parts.io` and `parts.codec` are reused).
-Bytes not yet read from the socket are read by the TLS library, never by the LDAP decoder.
-
-How the turn and `ldap.extended` end, from the code:
-  * the frame carries the request's message ID (1: first ID of a fresh handle): the result goes to
-    `op_call`, which converts it (`LdapResultExt::from` = `try_from_tag(..).expect("ldap result")`,
-    a PANIC on the caller's task if the protocolOp is not a well-formed LDAPResult);
-  * the frame carries another ID: "unmatched id" is logged, the turn ends with `Ok(conn)` all the
-    same, the connection object (with the registered result sender) stays alive in `try_join!`, and
-    `ldap.extended` waits for ever: establishment STALLS (ends only by `conn_timeout`, if set);
-  * end of stream with an empty buffer (`None => break`): the turn ends `Ok(conn)`: STALLS likewise;
-  * decoding error, "bytes remaining on stream" at EOF, read error (reset): the turn returns `Err`,
-    the connection object is dropped and with it the result sender: `ldap.extended` fails with
-    `ResultRecv` (or `OpSend` if the driver ended before the op was queued) - `try_join!` returns the
-    first `Err`, which is that one (the driver's own `Err` travels inside an `Ok` of the oneshot);
-  * nothing arrives: STALLS.
+The single-operation turn (as repaired by "fix: StartTLS establishment fails instead of hanging
+when the peer closes or answers another ID"): the `select!` loop takes the queued op, writes it
+(`stream.send` flushes), registers it in `resultmap` and `continue`s; from then on every `select!`
+event is the socket: `Framed::poll_next` first decodes from what it has buffered and reads only when
+that is not a whole frame, and returns ONE frame per call.  The turn looks the frame's ID up:
+  * the request's ID (1: first ID of a fresh handle): the result goes to `op_call`, `single_done` is
+    set and the turn leaves the loop with `Ok(conn)`.  Nothing more is decoded in cleartext:
+    whatever `Framed` had read behind that frame stays in its read buffer, and the buffer is dropped
+    by `into_parts()` (only `parts.io` and `parts.codec` are reused).  Bytes not yet read from the
+    socket are read by the TLS library, never by the LDAP decoder.  `op_call` converts the result
+    (`LdapResultExt::from` = `try_from_tag(..).expect("ldap result")`, a PANIC on the caller's task
+    if the protocolOp is not a well-formed LDAPResult - the documented `From<Tag>` behaviour);
+  * another ID: "unmatched id" is logged, the frame is delivered to NOBODY (`searchmap` is empty,
+    `resultmap` holds only the request's ID) and the turn keeps waiting for the real response;
+  * end of stream while the operation is awaited: the turn returns `Err(UnexpectedEof)`;
+  * decoding error, "bytes remaining on stream" at EOF, read error (reset): the turn returns `Err`.
+    In both `Err` cases the connection object is dropped and with it the result sender:
+    `ldap.extended` fails with `ResultRecv` (or `OpSend` if the driver ended before the op was
+    queued) - `try_join!` returns the first `Err`, which is that one (the driver's own `Err`
+    travels inside an `Ok` of the oneshot);
+  * nothing arrives: the turn waits; establishment STALLS.
 `conn_timeout` wraps `new_tcp` as a whole (`time::timeout(timeout, conn_future)`): a stall is
-`Err(Timeout)` when it is set and a future which never resolves otherwise.
+`Err(Timeout)` when it is set and a future which never resolves otherwise (the caller's choice).
 
-Scheduling: `select!` polls its branches in random order.  If the server's first bytes are already
-in the socket when the turn starts and the socket branch is polled first (`readFirst`), a complete
-frame is consumed (unmatched: nothing is registered yet) and the turn ends before the request was
-ever written; `ldap.extended` then stalls.  An incomplete frame leaves the branch pending and the
-op branch is taken as usual.
+Scheduling: `select!` polls its branches in random order.  While the request is still queued the
+socket branch may win `early` times if whole frames are already there: each such frame is
+unmatched (nothing is registered yet, whatever its ID), hence dropped, and the turn goes on; an
+end of stream or an error met there ends the turn with `Err` before the request is written.  A
+pending socket branch means that the op branch is taken.
 
 Parameter, not modelled: the TLS library (native-tls over OpenSSL): handshake, certificate chain
 and host name verification, record layer.  `TlsLib` is its verdict with the contract `TlsLib.Sound`.
@@ -120,7 +120,8 @@ structure Peer where
 calls return them (one chunk per successful `read`; bytes written together with the StartTLS
 response are in the same chunk as the response). For `ldaps` they precede the handshake. -/
 structure Server where
-  readFirst : Bool := false
+  /-- how many whole frames the socket branch of `select!` delivers before the op branch is taken -/
+  early : Nat := 0
   chunks : List Bytes
   atEnd : End
   peer : Peer
@@ -170,10 +171,12 @@ structure Result where
   outcome : Outcome
   /-- LDAP messages written to the socket in cleartext, in order -/
   cleartextWrites : List Bytes := []
-  /-- frames the LDAP decoder produced from cleartext bytes -/
+  /-- frames the LDAP decoder produced from cleartext bytes, in order -/
   decoded : List (Int × Tlv) := []
   /-- cleartext bytes of those frames -/
   consumed : Bytes := []
+  /-- the bytes of the last of them when it was routed to `op_call` (the StartTLS response) -/
+  response : Bytes := []
   /-- `parts.read_buf`: read by `Framed` behind the last decoded frame, dropped by `into_parts()` -/
   discarded : Bytes := []
   /-- cleartext bytes left in the socket, read by the TLS library -/
@@ -212,6 +215,13 @@ def readFrame (atEnd : End) : Bytes → List Bytes → ReadOut
     | .decodeError => .error
     | .frame id op ctrls n => .frame id op ctrls ((buf ++ c).take n) ((buf ++ c).drop n) cs
 
+/-- one `poll_next`: decode from the buffer first (`is_readable`), read only if that is not a frame -/
+def nextFrame (atEnd : End) (buf : Bytes) (chunks : List Bytes) : ReadOut :=
+  match decodeInner buf with
+  | .frame id op ctrls n => .frame id op ctrls (buf.take n) (buf.drop n) chunks
+  | .decodeError => .error
+  | .needMore => readFrame atEnd buf chunks
+
 /-! ## Establishment -/
 
 /-- a stall: `time::timeout(conn_timeout, ..)` or a future that never resolves -/
@@ -224,62 +234,83 @@ def tlsPhase (lib : TlsLib) (c : Cfg) (s : Server) (r : Result) (stale : Bytes) 
   | .error => { r with outcome := .err .nativeTls, tlsStale := stale }
   | .pending => { r with outcome := stall c, tlsStale := stale }
 
+/-- how the turn ends once the request is registered -/
+inductive Await where
+  /-- the frame with the request's ID: `skipped` = frames dropped before it (with their bytes) -/
+  | response (op : Tlv) (skipped : List (Int × Tlv)) (skippedBytes resp rest : Bytes) (unread : List Bytes)
+  /-- the turn returned `Err` (decoding error, end of stream, read error) -/
+  | driverErr (skipped : List (Int × Tlv)) (skippedBytes : Bytes)
+  /-- nothing (more) arrives -/
+  | waiting (skipped : List (Int × Tlv)) (skippedBytes : Bytes)
+  deriving Repr
+
+/-- the loop of the turn after the request: frames for other IDs are dropped.  `fuel` bounds the
+number of frames; `(buf ++ chunks.flatten).length + 1` suffices (a frame has at least two bytes):
+`awaitResponse_fuel` in Lemmas/TlsSetup.lean. -/
+def awaitResponse (atEnd : End) : Nat → Bytes → List Bytes → List (Int × Tlv) → Bytes → Await
+  | 0, _, _, sk, skb => .waiting sk skb
+  | fuel + 1, buf, chunks, sk, skb =>
+    match nextFrame atEnd buf chunks with
+    | .error => .driverErr sk skb
+    | .eof => .driverErr sk skb                       -- `None if SingleOp => return Err(UnexpectedEof)`
+    | .pending => .waiting sk skb
+    | .frame id op _ consumed rest unread =>
+      if id = 1 then .response op sk skb consumed rest unread
+      else awaitResponse atEnd fuel rest unread (sk ++ [(id, op)]) (skb ++ consumed)
+
+/-- the loop with sufficient fuel -/
+def await (atEnd : End) (buf : Bytes) (chunks : List Bytes) (sk : List (Int × Tlv)) (skb : Bytes) : Await :=
+  awaitResponse atEnd ((buf ++ chunks.flatten).length + 1) buf chunks sk skb
+
 /-- after the request has been written: the rest of the single-operation turn, `try_join!`,
-`conn_res?`, `res.success()?`, then the TLS phase -/
-def afterRequest (lib : TlsLib) (c : Cfg) (s : Server) (buf : Bytes) (chunks : List Bytes) : Result :=
+`conn_res?`, `res.success()?`, then the TLS phase.  `sk`/`skb`: frames dropped before the request. -/
+def afterRequest (lib : TlsLib) (c : Cfg) (s : Server) (buf : Bytes) (chunks : List Bytes)
+    (sk : List (Int × Tlv)) (skb : Bytes) : Result :=
   let w : Result := { outcome := .hang, cleartextWrites := [startTlsReq] }
-  match readFrame s.atEnd buf chunks with
-  | .error => { w with outcome := .err .driverEnded }
-  | .eof => { w with outcome := stall c }
-  | .pending => { w with outcome := stall c }
-  | .frame id op _ consumed rest unread =>
-    let w := { w with decoded := [(id, op)], consumed := consumed }
-    if id ≠ 1 then { w with outcome := stall c }          -- "unmatched id": nobody answers the op
-    else
-      match resultExt op with
-      | none => { w with outcome := .panic }
-      | some r =>
-        if r.rc ≠ 0 then { w with outcome := .err (.ldapResult r.rc) }
-        else tlsPhase lib c s { w with discarded := rest } unread.flatten
+  match await s.atEnd buf chunks sk skb with
+  | .driverErr sk skb => { w with outcome := .err .driverEnded, decoded := sk, consumed := skb }
+  | .waiting sk skb => { w with outcome := stall c, decoded := sk, consumed := skb }
+  | .response op sk skb resp rest unread =>
+    let w := { w with decoded := sk ++ [(1, op)], consumed := skb ++ resp, response := resp }
+    match resultExt op with
+    | none => { w with outcome := .panic }
+    | some r =>
+      if r.rc ≠ 0 then { w with outcome := .err (.ldapResult r.rc) }
+      else tlsPhase lib c s { w with discarded := rest } unread.flatten
 
 /-- how the single-operation turn gets to the request -/
 inductive FirstEvent where
-  /-- the op branch: the request is written; `buf` = what `Framed` has read so far, `chunks` = unread -/
-  | sent (buf : Bytes) (chunks : List Bytes)
-  /-- the socket branch came first and ended the turn with `Ok(conn)` (a frame, routed to nobody:
-  nothing is registered yet; or `None`): the request is never written -/
-  | endedOk (decoded : List (Int × Tlv)) (consumed : Bytes)
-  /-- the socket branch came first and ended the turn with `Err` -/
-  | endedErr
+  /-- the op branch: the request is written; `buf` = `Framed`'s read buffer, `chunks` = unread,
+  `skipped` = frames the socket branch delivered (to nobody) before -/
+  | sent (buf : Bytes) (chunks : List Bytes) (skipped : List (Int × Tlv)) (skippedBytes : Bytes)
+  /-- the socket branch came first and ended the turn with `Err`: the request is never written -/
+  | endedErr (skipped : List (Int × Tlv)) (skippedBytes : Bytes)
   deriving Repr
 
-def firstEvent (s : Server) : FirstEvent :=
-  if s.readFirst then
-    match s.chunks with
-    | [] =>
-      match s.atEnd with
-      | .eof => .endedOk [] []
-      | .reset => .endedErr
-      | .silent => .sent [] []
-    | ch :: cs =>
-      match decodeInner ch with
-      | .frame id op _ n => .endedOk [(id, op)] (ch.take n)
-      | .decodeError => .endedErr
-      | .needMore => .sent ch cs                           -- branch pending: the op branch is taken
-  else .sent [] s.chunks
+/-- `early` socket events before the op branch -/
+def preRequest (atEnd : End) : Nat → Bytes → List Bytes → List (Int × Tlv) → Bytes → FirstEvent
+  | 0, buf, chunks, sk, skb => .sent buf chunks sk skb
+  | k + 1, buf, chunks, sk, skb =>
+    match nextFrame atEnd buf chunks with
+    | .frame id op _ consumed rest unread => preRequest atEnd k rest unread (sk ++ [(id, op)]) (skb ++ consumed)
+    | .error => .endedErr sk skb
+    | .eof => .endedErr sk skb
+    | .pending => .sent buf chunks sk skb              -- branch pending: the op branch is taken
 
-/-- what the server answered to the request, as `Framed` sees it (`none`: the request was never sent) -/
-def answer (s : Server) : Option ReadOut :=
+def firstEvent (s : Server) : FirstEvent := preRequest s.atEnd s.early [] s.chunks [] []
+
+/-- what the server answered to the request, as the turn sees it (`none`: the request was never sent) -/
+def answer (s : Server) : Option Await :=
   match firstEvent s with
-  | .sent buf chunks => some (readFrame s.atEnd buf chunks)
-  | _ => none
+  | .sent buf chunks sk skb =>
+    some (await s.atEnd buf chunks sk skb)
+  | .endedErr _ _ => none
 
 /-- the `"starttls"` arm -/
 def startTls (lib : TlsLib) (c : Cfg) (s : Server) : Result :=
   match firstEvent s with
-  | .sent buf chunks => afterRequest lib c s buf chunks
-  | .endedOk decoded consumed => { outcome := stall c, decoded := decoded, consumed := consumed }
-  | .endedErr => { outcome := .err .driverEnded }
+  | .sent buf chunks sk skb => afterRequest lib c s buf chunks sk skb
+  | .endedErr sk skb => { outcome := .err .driverEnded, decoded := sk, consumed := skb }
 
 /-- `LdapConnAsync::new_tcp` from `conn_pair` on (wrapped in `conn_timeout`) -/
 def establish (lib : TlsLib) (c : Cfg) (s : Server) : Result :=
